@@ -34,6 +34,9 @@ RULE = ('per shipped listing: all ordered non-empty subsets of its tables (one i
         'Files with short output: for every ordered pair of tables every combination {row printed in the table\'s SHORT output, row not '
         'printed there} for the two items, and each such item alone, short on/off. After every agreeing call the returned arrays '
         'are modified in place and the reader\'s own times/steps must not change. '
+        'Every cell of every table (all rows by index x all columns, one call per table) on every shipped listing in both tiers. '
+        'start_datetime in {a whole-second start, a start with microseconds} x {each table, all tables}: times must come back as '
+        'start + t seconds to the microsecond (listings whose times leave the datetime range excepted). '
         'Successive calls on one reader: every ordered pair (thorough: and triple) with repetition of the selections {each table, every '
         'pair of tables, all tables} x short on/off, rows and columns moved from call to call. '
         'A case is one history() call on a fresh reader, or one such sequence of calls on one fresh reader (every call judged); non-trivial = it names at least one existing cell; distinct = '
@@ -55,7 +58,7 @@ ASSUMPTIONS = ['expected values come from the reader\'s own tables while steppin
                'than 4 x lines + 1000 consecutive reads at end of file',
                'every call is made on an independent deep copy of a pristine freshly opened listing (compared field by '
                'field with a second genuine open once per file); replays use a genuine fresh open']
-BOUNDS = {'quick': {'files': 'shipped listings smaller than 300 kB (counted in counters.files)', 'ordered_subsets': 'all',
+BOUNDS = {'quick': {'files': 'all-cells calls on every shipped listing; everything else on those smaller than 300 kB', 'ordered_subsets': 'all',
                     'items': 'all columns x 3 rows x key forms x 2 call forms', 'start_indices': 'all',
                     'successive_calls_on_one_reader': 'all ordered pairs of the selection set'},
           'thorough': {'files': 'all shipped listings (counted in counters.files)', 'ordered_subsets': 'all',
@@ -615,7 +618,8 @@ def eval_call(ctx, case, lst):
             one_us = datetime.timedelta(microseconds=1)
             okt = len(tg) == len(te) and all(isinstance(a, datetime.datetime) and abs(a - b) <= one_us for a, b in zip(tg, te))
             if not okt:
-                out.append(('C06|history|datetimes-differ|%s' % cls,
+                # the conversion is one code path for every simulator, table and key form: one signature
+                out.append(('C06|history|datetimes-differ',
                             '%s: item %r is paired with %r..., start_datetime + the result times is %r...'
                             % (desc, it, tg[:3], te[:3])))
                 break
